@@ -105,7 +105,6 @@ func (w *World) remove(entity Entity, rem []ID) {
 
 	mask := oldArchetype.mask
 	newTable, _, relRemoved := w.storage.findOrCreateTableRemove(oldTable, rem, &mask)
-	newIndex := newTable.Add(entity)
 
 	// Get the old table and archetype again, as the pointer may have changed.
 	oldTable = &w.storage.tables[oldTable.id]
@@ -123,6 +122,10 @@ func (w *World) remove(entity Entity, rem []ID) {
 		}
 		w.unlock(l)
 	}
+
+	// Add to the new table only after the removal events,
+	// so that observers see the entity exactly once.
+	newIndex := newTable.Add(entity)
 
 	for _, id := range oldArchetype.components {
 		if mask.Get(id.id) {
@@ -157,7 +160,6 @@ func (w *World) exchange(entity Entity, add []ID, rem []ID, relations []relation
 
 	mask := oldArchetype.mask
 	newTable, newArch, relRemoved := w.storage.findOrCreateTable(oldTable, add, rem, relations, &mask)
-	newIndex := newTable.Add(entity)
 
 	// Get the old table and archetype again, as the pointer may have changed.
 	oldTable = &w.storage.tables[oldTable.id]
@@ -177,6 +179,10 @@ func (w *World) exchange(entity Entity, add []ID, rem []ID, relations []relation
 			w.unlock(l)
 		}
 	}
+
+	// Add to the new table only after the removal events,
+	// so that observers see the entity exactly once.
+	newIndex := newTable.Add(entity)
 
 	for _, id := range oldArchetype.components {
 		if mask.Get(id.id) {
